@@ -41,6 +41,17 @@ structure Ev where
   amt : Nat
   pbits : Nat
 
+/-- a blinded payment tail as the harness built it: introduction node, the blinded hops and
+    the NUMS target (node indices), the channel id of the aggregate edge, the aggregate relay
+    parameters as given by the payer, and the `HasMaxHTLC` flag the CODE put on the aggregate
+    edge's policy. -/
+structure BlInfo where
+  intro : Nat
+  nodes : List Nat
+  chan : Nat
+  agg : BlindedAgg
+  hasMaxCode : Bool
+
 structure SearchInfo where
   penBits : Nat
   minBits : Nat
@@ -173,6 +184,7 @@ structure St where
   relaxDup : Bool := false
   badParse : Bool := false
   rhints : List (List HopHint) := []
+  bl : Option BlInfo := none
   dropped : List (Nat × Nat × Int × Int) := []
   srch : Option SearchInfo := none
   evs : List Ev := []
@@ -217,6 +229,9 @@ structure St where
   metaLen : Nat := 0
   probMode : Int := 0
   samples : Nat := 0
+  blindedCases : Nat := 0
+  blindedRoutes : Nat := 0
+  blindedMax : Nat := 0
   reannounced : Nat := 0
   staleCached : Nat := 0
   invHintCases : Nat := 0
@@ -347,13 +362,20 @@ def showHops (hs : List Hop) : String :=
 def endCase (s : St) : IO St := do
   let mut s := s
   let r := s.req
-  let gTrue := s.graph
-  let g := gTrue
+  -- A blinded tail is a hint chain whose first edge carries the aggregate policy. The
+  -- correspondence part (`g`) uses the max-HTLC flag the code put on that edge, the monitor
+  -- (`gTrue`) the payer's parameters: a maximum is in force whenever one is given.
+  let (g, gTrue) := match s.bl with
+    | some b =>
+      (s.graph ++ blindedChans b.chan b.hasMaxCode b.agg (b.intro :: b.nodes),
+       s.graph ++ blindedChans b.chan (b.agg.max != 0) b.agg (b.intro :: b.nodes))
+    | none => (s.graph, s.graph)
   if s.badParse then
     s ← mismatch s "unparsed case"
     return s
   if s.kind != "mem" then s := { s with dbCases := s.dbCases + 1 }
   if !s.rhints.isEmpty then s := { s with invHintCases := s.invHintCases + 1 }
+  if s.bl.isSome then s := { s with blindedCases := s.blindedCases + 1 }
   if s.rhints.any (·.length ≥ 2) then s := { s with invChained := s.invChained + 1 }
   if s.via == "sess" then s := { s with sessCases := s.sessCases + 1 }
   if r.lastHop.isSome || !r.outChans.isEmpty || !r.ignNodes.isEmpty || !r.ignPairs.isEmpty then
@@ -446,13 +468,20 @@ def endCase (s : St) : IO St := do
   if s.probMode < 0 then s := { s with distinctProb := s.distinctProb + 1 }
   let haveEdges := !(s.via == "route" && s.edges.isEmpty)
   if !haveEdges then s := { s with noEdges := s.noEdges + 1 }
-  if n != s.rh.nhops || (haveEdges && n != s.edges.length) then
+  -- blinded: the search's last edge is the dummy hop to the NUMS key, removed by newRoute
+  let routeEdges := if s.bl.isSome then s.edges.dropLast else s.edges
+  if s.bl.isSome && haveEdges && (s.edges.getLast?.map (·.to)) != some r.target then
+    s ← mismatch s "blinded: the returned path does not end with the dummy hop to the NUMS key"
+  if n != s.rh.nhops || (haveEdges && n != routeEdges.length) then
     s ← mismatch s s!"hop/edge count: hops={n} nhops={s.rh.nhops} edges={s.edges.length}"
   if haveEdges then
     -- (X) newRoute model on the real path
-    match newRoute r.source s.edges r.height r.amt r.finalDelta with
+    match newRoute r.source routeEdges r.height r.amt r.finalDelta with
     | none => s ← mismatch s "model newRoute: no hops"
-    | some m =>
+    | some m0 =>
+      let m : Route := match s.bl with
+        | some b => { m0 with hops := blindHops b.intro false m0.hops }
+        | none => m0
       if m != rt then
         s ← mismatch s s!"newRoute: model total={m.totalAmt}@{m.totalTL} {showHops m.hops} impl total={rt.totalAmt}@{rt.totalTL} {showHops rt.hops}"
     -- (X) the search's admissibility decisions along the real path
@@ -491,18 +520,36 @@ def endCase (s : St) : IO St := do
     s := { s with cltvTight := s.cltvTight + 1 }
   -- (S) the property monitor: always, in exact arithmetic
   s := { s with monitored := s.monitored + 1 }
-  if !routeOK gTrue r rt then
-    let vs := violations gTrue r rt (s.kind == "dbc") s.dropped
+  -- blinded: the payloads of the blinded portion carry no amounts; what they stand for (zero fee
+  -- and delta inside the blinded portion) is the final hop's amount / time lock, and the real
+  -- destination is the last blinded hop
+  let (rM, rtM) : Req × Route := match s.bl, rt.hops.getLast? with
+    | some b, some fin =>
+      ({ r with target := fin.to }, { rt with hops := unblindHops b.intro fin false rt.hops })
+    | _, _ => (r, rt)
+  if s.bl.isSome then s := { s with blindedRoutes := s.blindedRoutes + 1 }
+  if !routeOK gTrue rM rtM then
+    let vs0 := violations gTrue rM rtM (s.kind == "dbc") s.dropped
+    -- the aggregate edge of a blinded path whose policy the code built without HasMaxHTLC
+    let vs := vs0.map fun (cl, det) =>
+      match s.bl with
+      | some b =>
+        let aggHop := (rtM.hops.zipIdx.find? (fun (h, _) => h.chan == b.chan)).map (·.2)
+        if cl == "max_htlc" && !b.hasMaxCode && aggHop.map (fun i => s!"hop={i}") == some det then
+          ("max_htlc+blinded-hasmax-unset", det ++ s!" blinded_max={b.agg.max}")
+        else (cl, det)
+      | none => (cl, det)
     let vs := if vs.isEmpty then [("unknown", "")] else vs
     for (cl, det) in vs do
       if cl == "fee+overflow" then s := { s with wrapSkipped := s.wrapSkipped + 1 }
+      if cl == "max_htlc+blinded-hasmax-unset" then s := { s with blindedMax := s.blindedMax + 1 }
       s ← monitor s cl s!"{det} route total={rt.totalAmt}@{rt.totalTL} {showHops rt.hops}"
   -- (S) finality: the entries the search used when it relaxed the edges of the returned
   -- chain are the ones recomputed along the chain
   if !s.probOk then
     s ← monitor s "stale-entry" s!"probability stored for the source is not the product along the returned chain; route total={rt.totalAmt}@{rt.totalTL} {showHops rt.hops}"
-  let amtIns := rt.totalAmt :: (rt.hops.map (·.amt))
-  let tlIns := rt.totalTL :: (rt.hops.map (·.tl))
+  let amtIns := rtM.totalAmt :: (rtM.hops.map (·.amt))
+  let tlIns := rtM.totalTL :: (rtM.hops.map (·.tl))
   for st in s.stored do
     let aIn := amtIns.getD st.idx 0
     let tIn := tlIns.getD st.idx 0
@@ -568,7 +615,7 @@ def step (s : St) (line : String) : IO St := do
                     find := "",
                     edges := [], routeOk := false, rh := {}, hops := [], hopFees := [],
                     stored := [], probOk := true, relaxDup := false, usesHint := false,
-                    srch := none, evs := [], probBits := none, rhints := [], dropped := [],
+                    srch := none, evs := [], probBits := none, rhints := [], dropped := [], bl := none,
                     metaLen := nat "meta", probMode := (kvInt? rest "prob").getD 0,
                     badParse := bad, cases := s.cases + 1 }
   | "chan" :: id :: a :: b :: rest =>
@@ -592,6 +639,13 @@ def step (s : St) (line : String) : IO St := do
       let hs := hops.filterMap id
       return { s with rhints := s.rhints ++ [hs], hintIds := hs.map (·.chan) ++ s.hintIds }
     else return { s with badParse := true }
+  | "blinded" :: rest =>
+    match kvNat? rest "intro", kv? rest "nodes", kvNat? rest "chan", kvNat? rest "min", kvNat? rest "max",
+          kvNat? rest "base", kvNat? rest "rate", kvNat? rest "delta", kvNat? rest "hasmax_code" with
+    | some i, some ns, some c, some mn, some mx, some b, some rt, some d, some hm =>
+      return { s with bl := some ⟨i, parseNatList ns, c, ⟨mn, mx, b, rt, d⟩, hm != 0⟩,
+                      hintIds := (List.range 8).map (· + c) ++ s.hintIds }
+    | _, _, _, _, _, _, _, _, _ => return { s with badParse := true }
   | ["droppedinb", c, n, ib, ir] =>
     match nat? c, nat? n, int? ib, int? ir with
     | some c, some n, some ib, some ir =>
@@ -687,6 +741,9 @@ def main : IO Unit := do
   IO.println s!"STAT routes_via_FindRoute={s.routeCases}"
   IO.println s!"STAT routes_FindRoute_without_edge_replay={s.noEdges}"
   IO.println s!"STAT routes_over_route_hints={s.hintRoutes}"
+  IO.println s!"STAT cases_with_blinded_tail={s.blindedCases}"
+  IO.println s!"STAT routes_over_blinded_tail={s.blindedRoutes}"
+  IO.println s!"STAT blinded_max_htlc_not_enforced={s.blindedMax}"
   IO.println s!"STAT cases_with_invoice_route_hints={s.invHintCases}"
   IO.println s!"STAT cases_with_chained_invoice_route_hints={s.invChained}"
   IO.println s!"STAT routes_over_chained_invoice_route_hints={s.invChainedRoutes}"
